@@ -65,6 +65,17 @@ Definition pcase_model_ok (c : pcase) : bool :=
   ostr_eqb (parse_redact (pc_kind c) (pc_arg1 c)) (pc_out1 c) && ostr_eqb (parse_redact (pc_kind c) (pc_arg2 c)) (pc_out2 c).
 Definition pcase_prop_ok (c : pcase) : bool := ostr_eqb (pc_out1 c) (pc_out2 c).
 
+(* ---------------------------------------------------------------- 1c. --log-http occurrences
+   The real flag (bind.HTTPLogConfig on a pflag set) set several times; the modes the two modules end up in. *)
+Record ocase := { oc_init_api : str; oc_init_proxy : str; oc_calls : list (list lentry); oc_api : str; oc_proxy : str }.
+Definition ocase_model_ok (c : ocase) : bool :=
+  str_eqb (run_sets (oc_init_api c) (b "api") [] (oc_calls c)) (oc_api c) &&
+  str_eqb (run_sets (oc_init_proxy c) (b "proxy") [] (oc_calls c)) (oc_proxy c).
+(* a module that is named logs in the mode of its (first) naming, whatever the unnamed defaults are *)
+Definition ocase_prop_ok (c : ocase) : bool :=
+  match find_named (b "api") (concat (oc_calls c)) with Some x => str_eqb (oc_api c) x | None => true end &&
+  match find_named (b "proxy") (concat (oc_calls c)) with Some x => str_eqb (oc_proxy c) x | None => true end.
+
 (* ---------------------------------------------------------------- 2. DescribeFlags on the real run command
    The changed flags (sorted by name) of the real `forwarder run` flag set after parsing arguments
    that differ only in the secrets; OneLine and Plain output of FlagsDescriber. *)
